@@ -465,6 +465,8 @@ func checkC18Providers(t *testing.T, c *provCase, rec *Recorder) []Diff {
 		pos[u] = i
 	}
 	last := -1
+	firstCall := map[string]time.Duration{}
+	uncertain := false
 	final := map[string]bool{}
 	var firstValid string
 	finishedSuccess := false
@@ -474,7 +476,7 @@ func checkC18Providers(t *testing.T, c *provCase, rec *Recorder) []Diff {
 			add("unknown-provider", "request to %s which is not in the provider list", call.URL)
 			continue
 		}
-		if finishedSuccess {
+		if finishedSuccess && !uncertain {
 			add("request-after-success", "request to %s after a valid address had already been obtained", call.URL)
 		}
 		if p < last {
@@ -487,7 +489,7 @@ func checkC18Providers(t *testing.T, c *provCase, rec *Recorder) []Diff {
 			}
 			last = p
 		}
-		if final[call.URL] {
+		if final[call.URL] && !uncertain {
 			add("retry-after-final", "request #%d to %s although its previous answer was final (client error or invalid body)", call.N, call.URL)
 		}
 		steps := c.Providers[call.URL]
@@ -500,8 +502,23 @@ func checkC18Providers(t *testing.T, c *provCase, rec *Recorder) []Diff {
 				idx = len(steps) - 1
 			}
 			st := steps[idx]
-			// a step only takes effect if it completes within the provider's 2 s budget
-			if st.DelayMs < 1500 {
+			// a step only takes effect if it completes within the provider's 2 s budget, which starts at the
+			// provider's first request; how much of it the (randomised) backoff has used shows in the request log.
+			// Completions within 5 ms of the budget's end are not asserted either way.
+			first, seen := firstCall[call.URL]
+			if !seen {
+				first = call.At
+				firstCall[call.URL] = first
+			}
+			done := call.At + time.Duration(st.DelayMs)*time.Millisecond
+			if st.Kind == "slow-body" {
+				done = call.At + time.Duration(len(st.Body))*time.Duration(st.DelayMs)*time.Millisecond
+			}
+			budgetEnd := first + 2*time.Second
+			if done > budgetEnd-5*time.Millisecond && done < budgetEnd+5*time.Millisecond {
+				uncertain = true
+			}
+			if done < budgetEnd-5*time.Millisecond && !uncertain {
 				if stepIsValid(st) && firstValid == "" {
 					firstValid = strings.TrimSpace(st.Body)
 					finishedSuccess = true
@@ -510,6 +527,10 @@ func checkC18Providers(t *testing.T, c *provCase, rec *Recorder) []Diff {
 				}
 			}
 		}
+	}
+	if uncertain {
+		rec.Case(scenarioKey(c), false, nil, "budget-edge(not asserted)")
+		return ds
 	}
 	if firstValid != "" {
 		if err != nil || !got.Equal(net.ParseIP(firstValid)) {
